@@ -8,6 +8,7 @@ into the `Package` JSON, and let the Lean driver (lean/FaxVerif/Cpp/Driver.lean)
 from __future__ import annotations
 
 import json
+import re
 from typing import Any, Dict, List, Optional, Tuple
 
 import pipeline as P
@@ -95,9 +96,19 @@ def same_outcome(ex: Dict[str, Any], de: Dict[str, Any]) -> Tuple[bool, str]:
         if fe == fd:
             return True, "fault-agree"
         return False, f"exec {ex.get('fault', 'ok')} / query {de.get('fault', 'ok')}"
-    if ex["num"] == de["num"]:
+    if _norm_num(ex["num"]) == _norm_num(de["num"]):
         return True, "rows-agree"
     return False, "rows differ"
+
+
+def _norm_num(x):
+    """-0.0 and 0.0 are the same number (IEEE ==); an empty floating Sum times a negative value
+    is -0.0 in C++ and 0 in Python."""
+    if isinstance(x, list):
+        return [_norm_num(y) for y in x]
+    if isinstance(x, str):
+        return re.sub(r"(?<![\d.])-0\.000000(?!\d)", "0.000000", x)
+    return x
 
 
 def count_case(ctx, c: Case):
